@@ -49,6 +49,7 @@ var c06Prelude = []string{
 	`func mutsha(a, i, v) { if len(a) > 0 { a[i % len(a)] = v }; len(a) }`, // parameter named like the global a
 	`func mutshm(m, k, v) { m[k] = v; len(m) }`,                           // parameter named like the global m
 	`func slow(v) { t := 0; for i = 40 { t = t + i }; v }`,
+	`func vg9(..) { .. }`, // hands its extra arguments back as an array
 }
 
 var arrNames = []string{"a", "b", "c"}
@@ -80,7 +81,7 @@ func (c06) Generate(r *core.Rng, run int, tier string) *core.History {
 		case c < 9:
 			ev("copy", mn, mn2, 0, 0)
 		case c < 10:
-			ev(core.Pick(r, []string{"nest-arr", "nest-arr", "nest-arr-func"}), "h", an, 0, 0, an2)
+			ev(core.Pick(r, []string{"nest-arr", "nest-arr", "nest-arr-func", "nest-variadic-func"}), "h", an, 0, 0, an2)
 		case c < 11:
 			ev(core.Pick(r, []string{"nest-map", "nest-map", "nest-map-func", "nest-catch-func"}), "h", an, 0, 0, mn)
 		case c < 14:
@@ -237,6 +238,14 @@ func (c06) Execute(h *core.History) *core.Outcome {
 				m["h"] = &val{kind: "map", m: map[string]*val{"p": x.clone(), "q": y.clone()}}
 				src = "h = (() => { {\"p\": " + e.Key + ", \"q\": " + e.Args[0] + "} })()"
 			}
+		case "nest-variadic-func":
+			// outer bindings passed as extra arguments of a variadic function from inside another function
+			x, y := m[e.Key], m[e.Args[0]]
+			if x == nil || y == nil {
+				continue
+			}
+			m["h"] = &val{kind: "arr", arr: []*val{x.clone(), y.clone()}}
+			src = "h = (() => vg9(" + e.Key + ", " + e.Args[0] + "))()"
 		case "nest-catch-func":
 			// catch() of an outer binding from inside a function: its result map must hold the value, not a reference
 			x := m[e.Key]
